@@ -38,6 +38,26 @@ Theorem C12_single_instance_mode : forall k matched,
   use_single k matched = true <-> (k = GSingle /\ matched = false).
 Proof. intros k matched. destruct k, matched; cbn; split; intros H; try discriminate; try tauto; destruct H; discriminate. Qed.
 
+(* the names of the groups are keys only: two group lists that differ in their names alone (also a user's group called like the
+   library's own key for "no groups", `ungrouped`) give the same results, entry by entry, or are rejected alike *)
+Theorem C12_group_names_are_keys_only : forall R (run : bool -> arr2 -> R) matched gs gs' a,
+  Forall2 (fun g g' => g_kind g = g_kind g' /\ g_labels g = g_labels g') gs gs' ->
+  match evaluate_groups R run matched gs a, evaluate_groups R run matched gs' a with
+  | Ok out, Ok out' => map snd out = map snd out' /\ map fst out = map g_name gs /\ map fst out' = map g_name gs'
+  | Err e, Err e' => e = e'
+  | _, _ => False
+  end.
+Proof.
+  intros R run matched gs gs' a H.
+  assert (Hl : all_labels gs = all_labels gs').
+  { unfold all_labels. induction H as [|g g' t t' [_ Hg] _ IH]; cbn [flat_map]; [reflexivity|]. rewrite Hg, IH. reflexivity. }
+  unfold evaluate_groups, labels_defined. rewrite <- Hl.
+  destruct (forallb _ a); [|reflexivity].
+  rewrite !map_map. cbn [fst snd]. split; [|split; reflexivity]. clear Hl.
+  induction H as [|g g' t t' [Hk Hg] _ IH]; cbn [map]; [reflexivity|]. rewrite IH.
+  unfold extract_arr. rewrite Hk, Hg. reflexivity.
+Qed.
+
 (* with the instance pipeline as the evaluation: the entry of a group depends only on the voxels where one of the arrays carries a
    label of that group, as a multiset of (reference, prediction) label pairs -- the other groups' voxels, the background, positions
    and order are irrelevant (matched input and the threshold matcher; composition with Props/C10) *)
